@@ -28,3 +28,5 @@ def run(ctx):
     # every class must compile the pattern of its own structure(): what the accepted language rests on
     from ..rules_ast import persistent_state_rule
     ctx.guard(persistent_state_rule, ctx, "C02.own-pattern")
+    from ..rules_misc import assembly_layering_rule
+    ctx.guard(assembly_layering_rule, ctx, "C02.assembly-layering")
